@@ -57,14 +57,6 @@ func (v *Verifier) ProveLemma(name string, so *SolveOpts) *UnitResult {
 		s.assume(Gt(s.Alloc, IntLit(0)))
 		s.Entry = &snapshot{Heaps: map[string]*Term{}, Alloc: s.Alloc}
 		env := &SpecEnv{u: u, s: s, names: map[string]Value{}, cf: cf, pkg: u.Pkg.Pkg}
-		for _, dep := range l.Uses {
-			dl, dcf := v.findLemma(dep)
-			if dl == nil {
-				panic(unsupportedErr("lemma " + name + " uses unknown lemma " + dep))
-			}
-			denv := &SpecEnv{u: u, s: s, names: map[string]Value{}, cf: dcf, pkg: v.SSAPkgs[dcf.PkgPath].Pkg}
-			s.assume(u.evalBool(denv, dl.E))
-		}
 		e := l.E
 		// skolemise leading universal quantifiers
 		for {
@@ -80,6 +72,37 @@ func (v *Verifier) ProveLemma(name string, so *SolveOpts) *UnitResult {
 				env.names[qv.Name] = u.symbolic(s, "p_"+qv.Name, ty)
 			}
 			e = q.Body
+		}
+		// used lemmas: `uses name` asserts the quantified lemma, `uses name(args)` its instance
+		for _, dep := range l.Uses {
+			de, err := ParseExpr(dep)
+			if err != nil {
+				panic(unsupportedErr("lemma " + name + ": bad uses clause: " + err.Error()))
+			}
+			dname := dep
+			var dargs []Expr
+			if c, ok := de.(*ECall); ok {
+				dname = c.Fun.exprString()
+				dargs = c.Args
+			}
+			dl, dcf := v.findLemma(dname)
+			if dl == nil {
+				panic(unsupportedErr("lemma " + name + " uses unknown lemma " + dname))
+			}
+			u.Assumed["lemma "+dname+" (proved as its own obligation) used in lemma "+name] = true
+			denv := &SpecEnv{u: u, s: s, names: map[string]Value{}, cf: dcf, pkg: v.SSAPkgs[dcf.PkgPath].Pkg}
+			body := dl.E
+			if len(dargs) > 0 {
+				q, ok := body.(*EQuant)
+				if !ok || !q.Forall || len(q.Vars) != len(dargs) {
+					panic(unsupportedErr("lemma " + name + ": wrong number of arguments for " + dname))
+				}
+				for i, qv := range q.Vars {
+					denv.names[qv.Name] = u.evalSpec(env, dargs[i])
+				}
+				body = q.Body
+			}
+			s.assume(u.evalBool(denv, body))
 		}
 		// split top-level implication and conjunctions
 		goal := e
